@@ -59,6 +59,11 @@ def cone_case(draw, kind=None, max_n=5, kinds="lqs", dims=None, allow_eq=True, q
         # homogeneous cone constraints (h = 0) with a non-zero equality right-hand side, e.g. standard-form LPs:
         # here 'dual infeasible' would have to be told from 'optimal' by the size of A*x alone
         case["homog"] = draw(st.sampled_from([1.0, 1.0, 4.0, 16.0]))
+    if kind == "feas" and not qp and "homog" not in case and draw(st.integers(0, 3)) == 0:
+        # centred feasibility problems: c = 0, the cone identity e is orthogonal to the range of G (symmetric boxes,
+        # norm balls, trace-free LMIs) and h = G x0 + alpha*e.  Here the least-norm dual start is z = 0, so whatever
+        # the solver adds to it decides on its own whether the start is inside the cone
+        case["centered"] = draw(st.sampled_from([1.0, 2.0, 4.0]))
     if kind in ("pinf", "dinf", "rand"):
         case["x1"] = [draw(dy()) for _ in range(n)]
         case["c0"] = [draw(dy()) for _ in range(n)]
@@ -124,6 +129,13 @@ def materialize(case):
             s0 = s0 * case["homog"]
             Gs = Gs - np.outer(Gs @ x0 + s0, x0) / float(x0 @ x0)      # now Gs x0 = -s0, i.e. h = 0
             out["homog"] = True
+        if case.get("centered") and "B" not in case and N:
+            e = interior(np.zeros(N), 1.0, dims)
+            Gs = Gs - np.outer(e, Gs.T @ e) / float(e @ e)           # now Gs'e = 0 (columns stay symmetric)
+            s0 = case["centered"] * e
+            z0 = e
+            y0 = np.zeros(p)
+            out["centered"] = True
         h = Gs @ x0 + s0
         if out.get("homog"):
             h = np.zeros_like(h)
